@@ -15,9 +15,11 @@ import (
 	"fmt"
 	"os"
 	"path/filepath"
+	"reflect"
 	"sort"
 	"strings"
 	"testing"
+	"unsafe"
 
 	"github.com/cespare/xxhash/v2"
 	legacy "github.com/rpcpool/yellowstone-faithful/deprecated/bucketteer"
@@ -31,23 +33,24 @@ type c05Has interface {
 }
 
 type c05Interp struct {
-	s       *zz.Session
-	dir     string
-	n       int
-	fmt     string
-	w2      *Writer
-	w1      *legacy.Writer
-	path    string
-	meta2   indexmeta.Meta
-	meta1   map[string]string
-	added   map[[64]byte]struct{}
-	hashes  map[uint16]map[uint64]struct{}
-	sealed  bool
-	readers []c05Has
-	rnames  []string
-	files   []*os.File
-	caseOps []string
-	pool    *prefixToHashes
+	s        *zz.Session
+	dir      string
+	n        int
+	fmt      string
+	w2       *Writer
+	w1       *legacy.Writer
+	path     string
+	meta2    indexmeta.Meta
+	meta1    map[string]string
+	added    map[[64]byte]struct{}
+	hashes   map[uint16]map[uint64]struct{}
+	sealed   bool
+	readers  []c05Has
+	rnames   []string
+	files    []*os.File
+	caseOps  []string
+	pool     *prefixToHashes
+	template *Writer
 }
 
 func (in *c05Interp) reset() {
@@ -84,12 +87,25 @@ func (in *c05Interp) newV2(path string) (*Writer, error) {
 			return nil, err
 		}
 		in.pool = wr.prefixToHashes
+		in.template = wr
 		return wr, nil
 	}
 	for i := range in.pool {
 		in.pool[i] = in.pool[i][:0]
 	}
-	return &Writer{path: path, prefixToHashes: in.pool}, nil
+	// every other field gets the state NewWriter gives it: maps are made afresh (a Writer that grows a map field must
+	// not share it between the writers of one run), everything else keeps its zero value
+	wr := &Writer{}
+	rv := reflect.ValueOf(wr).Elem()
+	tv := reflect.ValueOf(in.template).Elem()
+	for i := 0; i < rv.NumField(); i++ {
+		f := reflect.NewAt(rv.Field(i).Type(), unsafe.Pointer(rv.Field(i).UnsafeAddr())).Elem()
+		if f.Kind() == reflect.Map && !tv.Field(i).IsNil() {
+			f.Set(reflect.MakeMap(f.Type()))
+		}
+	}
+	wr.path, wr.prefixToHashes = path, in.pool
+	return wr, nil
 }
 
 func c05Sig(hexs string) (sig [64]byte, ok bool) {
